@@ -367,7 +367,8 @@ Section Agree.
         destruct (index_of tl (c_name c)) as [j|] eqn:Ej; cbn [option_map Nat.add].
         - destruct (index_of_bound _ _ _ _ Ej) as [[n [k ti]] Hj]. rewrite Hj. cbn [option_map fst snd res_map res_bind].
           rewrite !sl_get_nat, !nth_error_map, Hj. cbn [option_map res_bind fst snd].
-          repeat (rewrite sl_upd_at; cbn [res_bind]).
+          (* field by field (sl_upd) or with one composite literal (sl_set): the element ends up the same *)
+          repeat (first [rewrite sl_upd_at | rewrite sl_set_at]; cbn [res_bind]).
           cbn [gtask_of]. rewrite Ej, Hj. reflexivity.
         - unfold node_of, lift_handler. cbn [ToolsNode_unknownToolHandler].
           destruct handler as [h|]; cbn [option_map is_nil res_map res_bind]; [|reflexivity].
@@ -677,74 +678,46 @@ Section Agree.
 
   Definition rp_of (x : string * (tkind * toolimpl O)) : option RPm := Some (RP_tool (fst (snd x)) (snd (snd x))).
 
-  Lemma conv_loop : forall ctx (rest pre : list BT) (done : list (string * (tkind * toolimpl O))),
-    List.length done = List.length pre ->
-    for_up_n (List.length rest) (Z.of_nat (List.length pre))
-      (fun idx ret =>
-         do bt <- sl_get (pre ++ rest) idx;
-         do tl <- m_BT_Info bt ctx;
-         let toolName := ToolInfo_Name tl in
-         let st : option BT := None in
-         let it : option BT := None in
-         let invokable : option (CTX -> string -> O -> tres) := None in
-         let streamable : option (CTX -> string -> O -> sres) := None in
-         let ok : bool := false in
-         let meta : option META := None in
-         let st := m_assert_StreamableTool bt in
-         let ok := negb (is_nil st) in
-         do streamable <- (if ok then let streamable := m_BT_StreamableRun st in Ok streamable else Ok streamable);
-         let it := m_assert_InvokableTool bt in
-         let ok := negb (is_nil it) in
-         do invokable <- (if ok then let invokable := m_BT_InvokableRun it in Ok invokable else Ok invokable);
-         if is_nil st && is_nil it then Err (e_at "convTools" 0%nat)
-         else
-           do meta <- (if negb (is_nil st)
-                       then let meta := m_parseExecutorInfo components_ComponentOfTool st in Ok meta
-                       else let meta := m_parseExecutorInfo components_ComponentOfTool it in Ok meta);
-           let ret := set_toolsTuple_indexes ret (map_set (toolsTuple_indexes ret) toolName idx) in
-           do x3 <- sl_set (toolsTuple_meta ret) idx meta;
-           let ret := set_toolsTuple_meta ret x3 in
-           do x4 <- sl_set (toolsTuple_rps ret) idx
-                      (m_newRunnablePacker invokable streamable None None (negb (m_callbackEnabled meta)));
-           let ret := set_toolsTuple_rps ret x4 in
-           Ok ret)
-      (mk_toolsTuple (idx_list 0 done)
-                     (map (fun _ => Some tt) done ++ repeat None (List.length rest))
-                     (map rp_of done ++ repeat None (List.length rest)))
+  (* the loop of convTools, whatever its body looks like: the state after the tools [done] have been taken
+     ([k] cells still to fill), and what one iteration does with the tool it looks at.  Only the effect of one
+     iteration matters (conv_loop), so the order of independent statements in the body, the names of its
+     locals, which arm of an if comes first ... are immaterial to the agreement *)
+  Definition conv_state (done : list (string * (tkind * toolimpl O))) (k : nat) : toolsTuple META RPm :=
+    mk_toolsTuple (idx_list 0 done)
+                  (map (fun _ => Some tt) done ++ repeat None k)
+                  (map rp_of done ++ repeat None k).
+
+  Definition conv_step (d : BT) : res (string * (tkind * toolimpl O)) :=
+    if negb (td_info_ok d) then Err E_TOOLINFO
+    else match td_kind d with
+         | None => Err E_NOTRUNNABLE
+         | Some k => Ok (td_name d, (k, td_impl d))
+         end.
+
+  Lemma conv_loop : forall (body : Z -> toolsTuple META RPm -> res (toolsTuple META RPm)) (l : list BT),
+    (forall pre d post done, l = pre ++ d :: post -> List.length done = List.length pre ->
+       body (Z.of_nat (List.length pre)) (conv_state done (S (List.length post)))
+       = do x <- conv_step d; Ok (conv_state (done ++ [x]) (List.length post))) ->
+    forall rest pre done, l = pre ++ rest -> List.length done = List.length pre ->
+    for_up_n (List.length rest) (Z.of_nat (List.length pre)) body (conv_state done (List.length rest))
     = res_map (fun tl' => tuple_of (done ++ tl')) (conv_tools rest).
   Proof.
-    intros ctx rest. induction rest as [|d rest IH]; intros pre done Hl.
-    - simpl. rewrite !app_nil_r. reflexivity.
-    - cbn [List.length repeat conv_tools].
-      replace (pre ++ d :: rest) with ((pre ++ [d]) ++ rest) by (rewrite <- app_assoc; reflexivity).
-      match goal with |- for_up_n _ _ ?b _ = _ => set (B := b) end.
-      cbn [for_up_n].
-      assert (Hget : sl_get ((pre ++ [d]) ++ rest) (Z.of_nat (List.length pre)) = Ok d)
-        by (rewrite <- app_assoc; apply sl_get_at).
-      unfold B at 1. cbv beta. rewrite Hget. cbn [res_bind]. unfold m_BT_Info.
-      destruct (td_info_ok d); cbn [negb res_bind]; [|reflexivity].
-      cbn [ToolInfo_Name]. unfold m_assert_StreamableTool, m_assert_InvokableTool.
-      assert (Hm : List.length (map (fun _ : string * (tkind * toolimpl O) => Some tt) done) = List.length pre) by (rewrite map_length; exact Hl).
-      assert (Hr : List.length (map rp_of done) = List.length pre) by (rewrite map_length; exact Hl).
-      destruct (td_kind d) as [[| |]|]; cbn [is_nil negb andb res_bind m_BT_StreamableRun m_BT_InvokableRun option_map];
-        try reflexivity;
-        cbn [set_toolsTuple_indexes set_toolsTuple_meta set_toolsTuple_rps toolsTuple_indexes toolsTuple_meta toolsTuple_rps];
-        rewrite <- Hm at 1; rewrite sl_set_at; cbn [res_bind];
-        rewrite <- Hr at 1; rewrite sl_set_at; cbn [res_bind];
-        (replace (Z.of_nat (List.length pre) + 1)%Z with (Z.of_nat (List.length (pre ++ [d]))) by (symmetry; apply zn_snoc));
-        unfold set_toolsTuple_rps, set_toolsTuple_meta, set_toolsTuple_indexes;
-        cbn [toolsTuple_indexes toolsTuple_meta toolsTuple_rps];
-        unfold map_set, m_newRunnablePacker, m_callbackEnabled, m_parseExecutorInfo; cbn [negb];
-        match goal with |- for_up_n _ _ _ ?st = res_map _ (do rest0 <- _; Ok (?x :: rest0)) =>
-          replace st with (mk_toolsTuple (idx_list 0 (done ++ [x]))
-                             (map (fun _ : string * (tkind * toolimpl O) => Some tt) (done ++ [x]) ++ repeat None (List.length rest))
-                             (map rp_of (done ++ [x]) ++ repeat None (List.length rest)))
-            by (rewrite !map_app, idx_list_snoc, <- !app_assoc; cbn [map app rp_of fst snd Nat.add]; rewrite Hl; reflexivity);
-          subst B; etransitivity; [exact (IH (pre ++ [d]) (done ++ [x]) (len_snoc _ _ _ _ _ _ Hl))|]
-        end;
-        destruct (conv_tools rest) as [tl'|e|]; cbn [res_map res_bind]; try reflexivity;
-        rewrite <- app_assoc; reflexivity.
+    intros body l Hbody. induction rest as [|d rest IH]; intros pre done El Hl.
+    - unfold conv_state, tuple_of. simpl. rewrite !app_nil_r. reflexivity.
+    - cbn [List.length for_up_n conv_tools]. rewrite (Hbody pre d rest done El Hl).
+      unfold conv_step. destruct (td_info_ok d); cbn [negb res_bind res_map]; [|reflexivity].
+      destruct (td_kind d) as [k|]; cbn [res_bind res_map]; [|reflexivity].
+      replace (Z.of_nat (List.length pre) + 1)%Z with (Z.of_nat (List.length (pre ++ [d]))) by (symmetry; apply zn_snoc).
+      rewrite (IH (pre ++ [d]) (done ++ [(td_name d, (k, td_impl d))])).
+      + destruct (conv_tools rest) as [tl'|e|]; cbn [res_map res_bind]; try reflexivity.
+        rewrite <- app_assoc. reflexivity.
+      + rewrite <- app_assoc. exact El.
+      + apply len_snoc. exact Hl.
   Qed.
+
+  Lemma sl_set_at_len : forall A (pre : list A) x y post n, n = List.length pre ->
+    sl_set (pre ++ x :: post) (Z.of_nat n) y = Ok (pre ++ y :: post).
+  Proof. intros; subst; apply sl_set_at. Qed.
 
   Theorem gen_convTools_agrees : forall ctx (l : list BT),
     g_convTools ctx l = res_map tuple_of (conv_tools l).
@@ -752,12 +725,25 @@ Section Agree.
     intros ctx l. unfold Gen.ToolNode.convTools. unfold sl_len. rewrite !sl_make_len. cbn [res_bind].
     rewrite for_up_len.
     cbn [set_toolsTuple_indexes set_toolsTuple_meta set_toolsTuple_rps toolsTuple_indexes toolsTuple_meta toolsTuple_rps zero_toolsTuple].
-    pose proof (conv_loop ctx l [] [] eq_refl) as L. cbn [app List.length map idx_list] in L. change (Z.of_nat 0) with 0%Z in L.
     unfold map_empty.
-    etransitivity; [|etransitivity].
-    2:{ apply (f_equal (fun r => do t <- r; Ok t)). exact L. }
-    - reflexivity.
-    - destruct (conv_tools l); reflexivity.
+    match goal with |- res_bind (for_up_n ?n ?z ?B ?init) _ = _ =>
+      assert (L : for_up_n n z B init = res_map (fun tl' => tuple_of ([] ++ tl')) (conv_tools l))
+    end.
+    { eapply conv_loop with (l := l) (rest := l) (pre := []) (done := []); [|reflexivity|reflexivity].
+      (* one iteration, on the tool d at index |pre| *)
+      intros pre d post done El Hl. subst l. cbv beta.
+      rewrite sl_get_at. cbn [res_bind]. unfold m_BT_Info, conv_step.
+      destruct (td_info_ok d); cbn [negb res_bind]; [|reflexivity].
+      cbn [ToolInfo_Name]. unfold m_assert_StreamableTool, m_assert_InvokableTool, conv_state.
+      destruct (td_kind d) as [[| |]|];
+        cbn [is_nil negb andb orb res_bind m_BT_StreamableRun m_BT_InvokableRun option_map repeat
+             set_toolsTuple_indexes set_toolsTuple_meta set_toolsTuple_rps toolsTuple_indexes toolsTuple_meta toolsTuple_rps];
+        try reflexivity;
+        repeat (rewrite sl_set_at_len by (rewrite map_length; symmetry; exact Hl);
+                cbn [res_bind set_toolsTuple_indexes set_toolsTuple_meta set_toolsTuple_rps toolsTuple_indexes toolsTuple_meta toolsTuple_rps]);
+        unfold map_set, m_newRunnablePacker, m_callbackEnabled, m_parseExecutorInfo; cbn [negb];
+        rewrite !map_app, idx_list_snoc, <- !app_assoc; cbn [map app rp_of fst snd Nat.add RP_tool]; rewrite Hl; reflexivity. }
+    rewrite L. cbn [app]. destruct (conv_tools l); reflexivity.
   Qed.
 
   (* NewToolNode: the node of the converted list, or the error of the first tool convTools cannot take *)
